@@ -145,6 +145,10 @@ pub struct Injection {
     /// fires once this many explorer events have been executed
     pub after_events: usize,
     pub action: Action,
+    /// fire in the same step as the `after_events`-th event, without letting the system quiesce in
+    /// between: both commands are then queued at the state machine back to back
+    #[serde(default)]
+    pub burst: bool,
 }
 
 #[derive(Clone, Debug, Serialize, Deserialize, PartialEq)]
@@ -219,6 +223,8 @@ struct Hub {
     leader_running: BTreeMap<(usize, u64), (u64, Option<u64>)>,
     auto_msgs: bool,
     fired: BTreeMap<String, u64>,
+    /// (leader, comp) for which the leader started sending run requests (it then holds a permit)
+    run_started: Vec<(usize, u64)>,
 }
 
 type SharedHub = Arc<Mutex<Hub>>;
@@ -300,6 +306,10 @@ impl SimClient {
                 if g.auto_msgs {
                     return Verdict::Deliver;
                 }
+            }
+            if kind == "run" && !g.run_started.contains(&(self.me, self.comp)) {
+                let k = (self.me, self.comp);
+                g.run_started.push(k);
             }
             let key = (kind.to_string(), self.me, to, self.comp);
             let nth = {
@@ -428,6 +438,8 @@ pub struct ServerRun {
     pub log_hash: u64,
     /// maximum number of computations each party led at the same time (between permit acquisition and release)
     pub max_overlap: Vec<usize>,
+    /// maximum number of led computations per party that were between 'run requested' and 'machine stopped'
+    pub max_led_active: Vec<usize>,
     pub pending_at_end: Vec<String>,
 }
 
@@ -508,6 +520,7 @@ fn run_on_this_thread(spec: &ServerSpec) -> ServerRun {
     let mut stalled = false;
     let mut event_limit = false;
     let mut max_overlap = vec![0usize; n];
+    let mut max_led_active = vec![0usize; n];
 
     let record_call = |hub: &SharedHub, what: &str, party: usize, comp: u64| -> usize {
         let mut g = hub.lock().unwrap();
@@ -524,7 +537,9 @@ fn run_on_this_thread(spec: &ServerSpec) -> ServerRun {
         });
         g.calls.len() - 1
     };
-    fn finish_call(hub: &SharedHub, idx: usize, ok: bool, detail: String) {
+    #[allow(clippy::items_after_statements)]
+    fn _unused_marker() {}
+    fn finish_call_inner(hub: &SharedHub, idx: usize, ok: bool, detail: String) {
         let mut g = hub.lock().unwrap();
         let seq = g.seq;
         let what = g.calls[idx].what.clone();
@@ -543,6 +558,13 @@ fn run_on_this_thread(spec: &ServerSpec) -> ServerRun {
         for p in 0..n {
             let taken = spec.concurrency[p] - sems[p].available_permits().min(spec.concurrency[p]);
             max_overlap[p] = max_overlap[p].max(taken);
+        }
+        {
+            let g = hub.lock().unwrap();
+            for p in 0..n {
+                let active = g.run_started.iter().filter(|(l, c)| *l == p && !g.machines_stopped.iter().any(|m| m.0 == p && m.1 == *c)).count();
+                max_led_active[p] = max_led_active[p].max(active);
+            }
         }
         if events as usize >= spec.max_events {
             event_limit = true;
@@ -573,7 +595,7 @@ fn run_on_this_thread(spec: &ServerSpec) -> ServerRun {
         }
         let mut forced = None;
         for (i, done) in injections.iter() {
-            if !*done && events as usize >= spec.injections[*i].after_events {
+            if !*done && (events as usize >= spec.injections[*i].after_events + spec.injections[*i].burst as usize) {
                 forced = Some(Ev::Inject(*i));
                 break;
             }
@@ -645,7 +667,101 @@ fn run_on_this_thread(spec: &ServerSpec) -> ServerRun {
                     finish_call(&hub2, idx, r.is_ok(), r.err().map(|e| format!("{e:?}")).unwrap_or_default());
                 }));
             }
-            Ev::Inject(i) => {
+            Ev::Inject(i) => fire_injection(i, spec, n, &rt, &hub, &sems, &mut injections, &mut tasks, &record_call),
+        }
+        // burst injections: fire in the same step, before the system quiesces
+        let due: Vec<usize> = injections.iter().filter(|(i, d)| !*d && spec.injections[*i].burst && spec.injections[*i].after_events == events as usize).map(|(i, _)| *i).collect();
+        for i in due {
+            events += 1;
+            {
+                let mut g = hub.lock().unwrap();
+                g.seq = events;
+                g.log.push(format!("[{events}] inject #{i} (burst)"));
+            }
+            decisions.push(format!("inject #{i}"));
+            fire_injection(i, spec, n, &rt, &hub, &sems, &mut injections, &mut tasks, &record_call);
+        }
+    }
+    // final state
+    let mut panics = vec![];
+    for t in tasks.iter_mut() {
+        if t.is_finished() {
+            if let Err(e) = rt.block_on(t) {
+                if e.is_panic() {
+                    panics.push(format!("harness call task panicked: {e}"));
+                }
+            }
+        }
+    }
+    panics.extend(crate::sim::PANIC_LOG.with(|c| c.borrow().clone()));
+    let g = hub.lock().unwrap();
+    let stalled_machines: Vec<(usize, u64)> = g
+        .machines_started
+        .iter()
+        .filter(|m| !g.machines_stopped.iter().any(|s| (s.0, s.1) == **m))
+        .cloned()
+        .collect();
+    if !stalled_machines.is_empty() && !event_limit {
+        stalled = true;
+    }
+    let permits: Vec<usize> = sems.iter().map(|s| s.available_permits()).collect();
+    let mut h = 0u64;
+    for l in &g.log {
+        h = entropy::fnv(h, l.as_bytes());
+    }
+    let pending_at_end = g.pending.iter().map(|p| format!("{} {}>{} c{}", p.kind, p.from, p.to, p.comp)).collect();
+    let out = ServerRun {
+        outputs: g.outputs.clone(),
+        calls: g.calls.clone(),
+        log: g.log.clone(),
+        decisions,
+        events,
+        msgs: g.msgs,
+        msgs_by_comp: g.msgs_by_comp.clone(),
+        machines_started: g.machines_started.clone(),
+        machines_stopped: g.machines_stopped.clone(),
+        permits,
+        panics,
+        stalled,
+        stalled_machines,
+        event_limit,
+        fired: g.fired.clone(),
+        log_hash: h,
+        max_overlap,
+        max_led_active,
+        pending_at_end,
+    };
+    drop(g);
+    polytune_server_core::verif::thread::set_spawner(None);
+    // dropping the runtime drops all remaining tasks
+    drop(_guard);
+    drop(rt);
+    out
+}
+
+fn action_name(a: &Action) -> &'static str {
+    match a {
+        Action::Cancel { .. } => "cancel",
+        Action::DupSchedule { .. } => "dup_schedule",
+        Action::StrayRun { .. } => "stray_run",
+        Action::StrayConsts { .. } => "stray_consts",
+        Action::StrayValidate { .. } => "stray_validate",
+        Action::StrayMsg { .. } => "stray_msg",
+    }
+}
+
+#[allow(clippy::too_many_arguments)]
+fn fire_injection(
+    i: usize,
+    spec: &ServerSpec,
+    n: usize,
+    rt: &tokio::runtime::Runtime,
+    hub: &SharedHub,
+    sems: &Arc<Vec<Arc<Semaphore>>>,
+    injections: &mut [(usize, bool)],
+    tasks: &mut Vec<tokio::task::JoinHandle<()>>,
+    record_call: &dyn Fn(&SharedHub, &str, usize, u64) -> usize,
+) {
                 injections[i].1 = true;
                 let action = spec.injections[i].action.clone();
                 *hub.lock().unwrap().fired.entry(format!("inject_{}", action_name(&action))).or_insert(0) += 1;
@@ -722,72 +838,16 @@ fn run_on_this_thread(spec: &ServerSpec) -> ServerRun {
                         }));
                     }
                 }
-            }
-        }
-    }
-    // final state
-    let mut panics = vec![];
-    for t in tasks.iter_mut() {
-        if t.is_finished() {
-            if let Err(e) = rt.block_on(t) {
-                if e.is_panic() {
-                    panics.push(format!("harness call task panicked: {e}"));
-                }
-            }
-        }
-    }
-    panics.extend(crate::sim::PANIC_LOG.with(|c| c.borrow().clone()));
-    let g = hub.lock().unwrap();
-    let stalled_machines: Vec<(usize, u64)> = g
-        .machines_started
-        .iter()
-        .filter(|m| !g.machines_stopped.iter().any(|s| (s.0, s.1) == **m))
-        .cloned()
-        .collect();
-    if !stalled_machines.is_empty() && !event_limit {
-        stalled = true;
-    }
-    let permits: Vec<usize> = sems.iter().map(|s| s.available_permits()).collect();
-    let mut h = 0u64;
-    for l in &g.log {
-        h = entropy::fnv(h, l.as_bytes());
-    }
-    let pending_at_end = g.pending.iter().map(|p| format!("{} {}>{} c{}", p.kind, p.from, p.to, p.comp)).collect();
-    let out = ServerRun {
-        outputs: g.outputs.clone(),
-        calls: g.calls.clone(),
-        log: g.log.clone(),
-        decisions,
-        events,
-        msgs: g.msgs,
-        msgs_by_comp: g.msgs_by_comp.clone(),
-        machines_started: g.machines_started.clone(),
-        machines_stopped: g.machines_stopped.clone(),
-        permits,
-        panics,
-        stalled,
-        stalled_machines,
-        event_limit,
-        fired: g.fired.clone(),
-        log_hash: h,
-        max_overlap,
-        pending_at_end,
-    };
-    drop(g);
-    polytune_server_core::verif::thread::set_spawner(None);
-    // dropping the runtime drops all remaining tasks
-    drop(_guard);
-    drop(rt);
-    out
 }
 
-fn action_name(a: &Action) -> &'static str {
-    match a {
-        Action::Cancel { .. } => "cancel",
-        Action::DupSchedule { .. } => "dup_schedule",
-        Action::StrayRun { .. } => "stray_run",
-        Action::StrayConsts { .. } => "stray_consts",
-        Action::StrayValidate { .. } => "stray_validate",
-        Action::StrayMsg { .. } => "stray_msg",
-    }
+fn finish_call(hub: &SharedHub, idx: usize, ok: bool, detail: String) {
+    let mut g = hub.lock().unwrap();
+    let seq = g.seq;
+    let what = g.calls[idx].what.clone();
+    let (p, c) = (g.calls[idx].party, g.calls[idx].comp);
+    g.calls[idx].done_seq = Some(seq);
+    g.calls[idx].done_ord = Some(g.log.len() as u64 + 1);
+    g.calls[idx].ok = Some(ok);
+    g.calls[idx].detail = detail.clone();
+    g.log.push(format!("{what} p{p}/c{c} -> {}", if ok { "Ok".to_string() } else { format!("Err({})", detail.chars().take(80).collect::<String>()) }));
 }
